@@ -26,6 +26,16 @@ def pinned_functions():
     return _PINNED
 
 
+# closures handed to iterator adaptors/consumers that are NOT desugared into loops: their body is spliced once at the
+# call site, applied to a synthetic "element of the receiver" (summary splice), so that def-use slices and inventories
+# see what the closure reads, computes and may panic on. kind: how the closure is applied to the element.
+LAZY = [
+    (r"^std::iter::Iterator::(map|filter_map|flat_map|find_map|map_while|position|try_for_each)$", "val"),
+    (r"^std::iter::Iterator::(filter|find|take_while|skip_while|inspect|rposition)$", "ref"),
+    (r"^std::iter::Iterator::(fold|try_fold)$", "acc"),
+]
+
+
 def basename(path):
     """Module-independent name of an item: `Type::method` for associated functions, the last segment otherwise."""
     segs = [x for x in re.split(r"::(?![^<]*>)", path) if x]
@@ -95,6 +105,11 @@ def split_generics(ty):
     return out
 
 
+def op_place_local(o):
+    p = o.get("move") or o.get("copy") if isinstance(o, dict) else None
+    return p if p is not None else None
+
+
 def P(l, proj=None):
     return {"local": l, "proj": proj or []}
 
@@ -142,7 +157,7 @@ class Splicer:
     def goto(b):
         return {"k": "goto", "target": b}
 
-    def splice_body(self, callee, arg_ops, dest_place, cont, span, env_op=None, label=None, upvars=None):
+    def splice_body(self, callee, arg_ops, dest_place, cont, span, env_op=None, label=None, upvars=None, tsubst=None):
         """Copy callee's blocks/locals into this body; returns the entry block id. Parameters are assigned in a fresh
         entry block; `return` becomes `dest = _0; goto cont`."""
         off_l = len(self.locals)
@@ -204,10 +219,29 @@ class Splicer:
                         return r
             return {k: (v if k == "const" else subst(v)) for k, v in o.items()}
 
+        def tsub(o):
+            """instantiate the helper's type parameter in type strings / callee names"""
+            if isinstance(o, list):
+                return [tsub(x) for x in o]
+            if isinstance(o, dict):
+                return {k: (v if k in ("const", "span", "tspan", "fn_span") else tsub(v)) for k, v in o.items()}
+            if isinstance(o, str):
+                for a, b_ in tsubst.items():
+                    o = re.sub(r"(?<![\w:])%s(?![\w])" % re.escape(a), b_, o)
+                return o
+            return o
+
         for blk in callee["blocks"]:
             nb = rm(blk)
             if upvars:
                 nb = subst(nb)
+            if tsubst:
+                nb = tsub(nb)
+                tt = nb["term"]
+                if tt["k"] == "call" and tt.get("resolved") == "GENERIC" and tt.get("callee") == "std::str::FromStr::from_str" and re.match(r"^[ui](8|16|32|64|128|size)$", tt.get("self_ty", "")):
+                    tt["resolved"] = tt["callee"]
+                    tt["resolved_full"] = "core::num::<impl std::str::FromStr for %s>::from_str" % tt["self_ty"]
+                    tt["resolved_local"] = False
             nb["id"] = blk["id"] + off_b
             if label:
                 nb["inlined_from"] = label
@@ -360,9 +394,32 @@ class Normaliser:
             st.pop("syn", None)  # a constructor passed as a function item is a construction written by the author
             return sp.new_block([st], sp.goto(cont), span)
         local = c["fn"] in self.by_path
+        pin = pinned_functions()
+        if local and pin is not None and c["fn"] not in pin and c["fn"] not in self.moved and c["fn"] != j["path"]:
+            # a new crate-local helper passed as a function item (`ok_or_else(invalid)`): splice it like a direct call
+            cj0 = self.by_path[c["fn"]]
+            if cj0["kind"] in ("Fn", "AssocFn") and not cj0.get("coroutine_kind"):
+                cj = self.body(c["fn"])
+                self.stats["helpers_inlined"] += 1
+                self.fn_inlined.add(c["fn"])
+                return sp.splice_body(cj, args, dest_place, cont, span, label=c["fn"])
         term = {"k": "call", "callee": c["fn"], "callee_true": c["fn"], "callee_full": c.get("fn_full", c["fn"]), "gargs": [], "resolved": c["fn"], "resolved_true": c["fn"],
                 "resolved_full": c.get("fn_full", c["fn"]), "resolved_local": local, "args": args, "arg_tys": ["?"] * len(args), "dest": dest_place, "target": cont, "unwind": None, "fn_span": span}
         return sp.new_block([], term, span)
+
+    def type_subst(self, cj, t):
+        """{type parameter name: concrete type} when the helper has exactly one type parameter and the call names one type."""
+        tys = [g for g in t.get("gargs", []) if not g.startswith("'")]
+        names = []
+        for blk in cj["blocks"]:
+            tt = blk["term"]
+            if tt["k"] == "call":
+                for g in [tt.get("self_ty", "")] + list(tt.get("gargs", [])):
+                    if re.match(r"^[A-Z][A-Za-z0-9]*$", g or "") and g not in names and g not in ("Self",):
+                        names.append(g)
+        if len(tys) == 1 and len(names) == 1 and names[0] != tys[0]:
+            return {names[0]: tys[0]}
+        return None
 
     def is_tail_call(self, j, t):
         """'ret' if the call's result is the function's result (dest is _0 and only drops/gotos follow until `return`),
@@ -407,6 +464,13 @@ class Normaliser:
             if kind and t.get("target") is not None:
                 self.desugar(sp, j, bi, blk, t, kind)
                 continue
+            lazy = None
+            for rx, k in LAZY:
+                if re.search(rx, t.get("callee", "")):
+                    lazy = k
+            if lazy and t.get("target") is not None and not blk.get("desugared"):
+                self.summary_splice(sp, j, bi, blk, t, lazy)
+                continue
             # helper inlining
             pin = pinned_functions()
             r = t.get("resolved")
@@ -426,7 +490,7 @@ class Normaliser:
                         blk["inlined_call"] = r
                         self.stats["helpers_inlined"] += 1
                         continue
-                    entry = sp.splice_body(cj, t["args"], t["dest"], t["target"], span, label=r)
+                    entry = sp.splice_body(cj, t["args"], t["dest"], t["target"], span, label=r, tsubst=self.type_subst(cj, t))
                     if tk:
                         shared[(r, tk)] = sp.last_off
                     blk["term"] = sp.goto(entry)
@@ -447,6 +511,52 @@ class Normaliser:
                     cb = self.callable_of(j, a)
                     if cb and cb[0] == "closure":
                         self.closure_uses.setdefault(cb[1], [0, 0])[1] += 1
+
+    def summary_splice(self, sp, j, bi, blk, t, kind):
+        """`X = it.adaptor(closure)`: keep the call, but first run the closure body once on a synthetic element of `it`
+        and pass its result along as an extra (summary) operand of the call."""
+        span = blk["tspan"]
+        args = t["args"]
+        ci = 2 if kind == "acc" else 1
+        if len(args) <= ci:
+            return
+        cb = self.callable_of(j, args[ci])
+        if cb is None or cb[0] != "closure":
+            return
+        recv = args[0]
+        rty = t["arg_tys"][0] if t.get("arg_tys") else "?"
+        it_l = sp.new_local(rty, None)
+        it_ref = sp.new_local("&mut " + rty, None)
+        nxt = sp.new_local("std::option::Option<?>", None)
+        elem = sp.new_local("?", None)
+        res = sp.new_local("?", None)
+        # final block: the original call, fed from the saved receiver and carrying the summary operand
+        t2 = dict(t)
+        t2["args"] = [MV(P(it_l))] + list(args[1:]) + [CP(P(res))]
+        t2["summary_operand"] = len(t2["args"]) - 1
+        fin = sp.new_block([], t2, span)
+        if kind == "ref":
+            er = sp.new_local("&?", None)
+            cargs = [MV(P(er))]
+        elif kind == "acc":
+            cargs = [args[1], MV(P(elem))]
+        else:
+            cargs = [MV(P(elem))]
+        e = self.emit_call(sp, "closure", cb[1], cb[2], cargs, P(res), fin, span, j)
+        if e is None:
+            return
+        pre = [sp.assign(P(elem), sp.use(MV(variant_field(nxt, "Some", 1))), span)]
+        if kind == "ref":
+            pre.append(sp.assign(P(er), {"k": "ref", "mut": False, "place": P(elem)}, span))
+        b_el = sp.new_block(pre, sp.goto(e), span)
+        ity = rty.replace("&mut ", "")
+        nxt_call = {"k": "call", "callee": "std::iter::Iterator::next", "callee_true": "core::iter::Iterator::next", "callee_full": "<%s as std::iter::Iterator>::next" % ity, "gargs": [ity], "trait": "std::iter::Iterator",
+                    "self_ty": ity, "resolved": "std::iter::Iterator::next", "resolved_full": "<%s as std::iter::Iterator>::next" % ity, "resolved_local": False,
+                    "args": [MV(P(it_ref))], "arg_tys": ["&mut " + ity], "dest": P(nxt), "target": b_el, "unwind": None, "fn_span": span, "summary": True}
+        blk["stmts"] = blk["stmts"] + [sp.assign(P(it_l), sp.use(recv), span), sp.assign(P(it_ref), {"k": "ref", "mut": True, "place": P(it_l)}, span)]
+        blk["term"] = nxt_call
+        blk["desugared"] = "summary:" + t["callee"].split("::")[-1]
+        self.stats["summaries"] = self.stats.get("summaries", 0) + 1
 
     def desugar(self, sp, j, bi, blk, t, kind):
         span = blk["tspan"]
